@@ -229,6 +229,36 @@ class Model:
         for m in self.modules.values():
             yield from m.functions.values()
 
+    def call_sites(self, target: "FuncInfo"):
+        """Every (calling function, call) in the package whose callee resolves to `target`."""
+        cache = getattr(self, "_call_sites", None)
+        if cache is None:
+            cache = {}
+            for m in self.modules.values():
+                for f in m.functions.values():
+                    if isinstance(f.node, ast.Lambda):
+                        continue
+                    for c in calls_in(f):
+                        r = self.resolve_call(f, c)
+                        if r is not None:
+                            cache.setdefault(r.fq, []).append((f, c))
+            object.__setattr__(self, "_call_sites", cache) if hasattr(type(self), "__dataclass_fields__") else setattr(self, "_call_sites", cache)
+        return cache.get(target.fq, [])
+
+    def arguments_for(self, target: "FuncInfo", param: str):
+        """The expressions every call site binds to `param` of `target` (positional or keyword): [(caller, call, expr)]; expr None when not passed."""
+        ps = [x for x in target.params if not (target.cls and x in ("self", "cls"))]
+        out = []
+        for f, c in self.call_sites(target):
+            e = None
+            if param in ps and ps.index(param) < len(c.args) and not any(isinstance(a, ast.Starred) for a in c.args[: ps.index(param) + 1]):
+                e = c.args[ps.index(param)]
+            for k in c.keywords:
+                if k.arg == param:
+                    e = k.value
+            out.append((f, c, e))
+        return out
+
     def stats(self) -> dict:
         nfunc = sum(len(m.functions) for m in self.modules.values())
         ncls = sum(len(m.classes) for m in self.modules.values())
@@ -361,7 +391,7 @@ def load_model(repo: str | os.PathLike = "/repo", normalize: bool = True) -> Mod
                     new_in_module[p.stem] = new_in_module.get(p.stem, 0) + 1
         model.drift = drift
         model.deletion_only = {k for k in del_only if not new_in_module.get(k.split(".")[0])}
-        model.normalisation = {"renamed": nz.renamed, "temp_returns_inlined": nz.inlined, "log_statements_dropped": nz.log_stmts, "negated_ifs_unflipped": nz.unflipped, "annotated_local_assignments_made_plain": nz.annotated, "new_single_use_temporaries_inlined": nz.temps}
+        model.normalisation = {"renamed": nz.renamed, "temp_returns_inlined": nz.inlined, "log_statements_dropped": nz.log_stmts, "negated_ifs_unflipped": nz.unflipped, "annotated_local_assignments_made_plain": nz.annotated, "new_single_use_temporaries_inlined": nz.temps, "new_accumulator_loops_folded": nz.folded, "new_pure_explaining_variables_inlined": nz.pure_temps, "control_flow_restyled_towards_reference": nz.restyled}
     for p, text, tree in parsed:
         mod = Module(p.stem, p, str(p.relative_to(repo)), text, tree)
         _Indexer(mod).visit(tree)
